@@ -1023,19 +1023,6 @@ Proof.
   intros w v Hw Hv. apply (good_add known w0 w p fk v Hw Hhp Hfk). apply Hl. exact Hv.
 Qed.
 
-Lemma good_fold_xor known w0 p fk l :
-  has w0 p = true -> field_ok (kindof w0 p) fk = true -> (forall c, In c l -> member_ok w0 fk c = true) ->
-  forall w, Good known w0 w ->
-  Good known w0 (fst (fold_ok (fun w c => if mem c (field w p fk) then set_discard w p c else set_add w p c) l w)) /\
-  snd (fold_ok (fun w c => if mem c (field w p fk) then set_discard w p c else set_add w p c) l w) = true.
-Proof.
-  intros Hhp Hfk Hl.
-  apply (fold_ok_inv (Good known w0) (fun w c => if mem c (field w p fk) then set_discard w p c else set_add w p c) l).
-  intros w v Hw Hv. destruct (mem v (field w p fk)).
-  - apply good_discard. exact Hw.
-  - apply (good_add known w0 w p fk v Hw Hhp Hfk). apply Hl. exact Hv.
-Qed.
-
 Lemma good_blocks known w p fk items :
   Forest w known -> CacheInv w -> has w p = true -> kindof w p = KBI -> field_ok (kindof w p) fk = true ->
   (forall c, In c items -> member_ok w fk c = true) ->
@@ -1096,7 +1083,18 @@ Proof.
     destruct args as [|a [|l2 ll]]; try discriminate Hshape.
     assert (Ha : forall c, In c (dedup a) -> member_ok w fk c = true).
     { intros c Hc'. apply Hall. cbn [concat]. rewrite app_nil_r. apply dedup_In. exact Hc'. }
-    pose proof (good_fold_xor known w p fk (dedup a) Hhp Hfk Ha w Hg0) as Hr. finish_flag H Hr.
+    cbv zeta in H.
+    pose proof (good_fold_discard known w p (filter (fun c => mem c (field w p fk)) (dedup a)) w Hg0) as Hr1.
+    destruct (fold_ok (fun w c => set_discard w p c) (filter (fun c => mem c (field w p fk)) (dedup a)) w)
+      as [w1 ok1].
+    cbn [fst snd] in Hr1. destruct Hr1 as [Hg1 Hok1].
+    assert (Ha2 : forall c, In c (filter (fun c => negb (mem c (field w p fk))) (dedup a)) -> member_ok w fk c = true).
+    { intros c Hc'. apply filter_In in Hc'. apply Ha. apply Hc'. }
+    pose proof (good_fold_add known w p fk _ Hhp Hfk Ha2 w1 Hg1) as Hr2.
+    destruct (fold_ok (fun w c => set_add w p c) (filter (fun c => negb (mem c (field w p fk))) (dedup a)) w1)
+      as [w2 ok2].
+    cbn [fst snd] in Hr2. destruct Hr2 as [Hg2 Hok2].
+    subst ok1 ok2. cbn in H. injection H as H. subst w'. exact Hg2.
 Qed.
 
 (* ---------- OSetParent (non-module child) ---------- *)
@@ -1283,49 +1281,40 @@ Proof. intro H. rewrite in_app_iff. cbn [In]. split; [intros [A|[A|[]]]; [exact 
 Lemma in_snoc_eq (v : id) pre : In v (pre ++ [v]).
 Proof. apply in_app_iff. right. left. reflexivity. Qed.
 
-(* folding the symmetric-difference step over a duplicate-free l *)
-Lemma fold_xor_kids known w0 p fk l :
-  Forest w0 known -> CacheInv w0 -> has w0 p = true -> field_ok (kindof w0 p) fk = true -> NoDup l ->
+(* the symmetric difference: the members named by l are discarded first, then the new elements are added *)
+Lemma ixor_kids known w0 p fk l :
+  Forest w0 known -> CacheInv w0 -> has w0 p = true -> field_ok (kindof w0 p) fk = true ->
   (forall c, In c l -> member_ok w0 fk c = true) ->
-  Good known w0 (fst (fold_ok (fun w c => if mem c (field w p fk) then set_discard w p c else set_add w p c) l w0)) /\
-  snd (fold_ok (fun w c => if mem c (field w p fk) then set_discard w p c else set_add w p c) l w0) = true /\
-  forall x, In x (kids (fst (fold_ok (fun w c => if mem c (field w p fk) then set_discard w p c else set_add w p c) l w0)) p)
-            <-> (In x (kids w0 p) /\ ~ In x l) \/ (~ In x (kids w0 p) /\ In x l).
+  forall r1 r2,
+  r1 = fold_ok (fun w c => set_discard w p c) (filter (fun c => mem c (field w0 p fk)) l) w0 ->
+  r2 = fold_ok (fun w c => set_add w p c) (filter (fun c => negb (mem c (field w0 p fk))) l) (fst r1) ->
+  Good known w0 (fst r2) /\ snd r1 = true /\ snd r2 = true /\
+  forall x, In x (kids (fst r2) p) <-> (In x (kids w0 p) /\ ~ In x l) \/ (~ In x (kids w0 p) /\ In x l).
 Proof.
-  intros Hf Hc Hhp Hfk Hnd Hl.
-  pose (Q := fun (pre : list id) (w : world) =>
-               Good known w0 w /\
-               forall x, In x (kids w p) <-> (In x (kids w0 p) /\ ~ In x pre) \/ (~ In x (kids w0 p) /\ In x pre)).
-  destruct (fold_ok_ind Q (fun w c => if mem c (field w p fk) then set_discard w p c else set_add w p c) l)
-    with (w := w0) as [[A B] C].
-  - intros pre v suf w El [Hg Hk].
-    assert (member_ok w0 fk v = true) as Hmv. { apply Hl. rewrite El. apply in_app_iff. right. left. reflexivity. }
-    assert (~ In v pre) as Hvp.
-    { rewrite El in Hnd. apply NoDup_remove_2 in Hnd. intro H. apply Hnd. apply in_app_iff. left. exact H. }
-    pose proof Hg as [Hfw [Hcw Hpw]].
-    assert (inF w fk v) as HinF.
-    { unfold inF. destruct (Hpw v) as [_ E]. rewrite E. apply (member_ok_inF w0 fk v Hmv). }
-    destruct (mem v (field w p fk)) eqn:Em.
-    + destruct (good_discard known w0 w p v Hg) as [Hg' Hfl]. split; [|exact Hfl]. split; [exact Hg'|].
-      apply mem_In in Em. apply field_In in Em. destruct Em as [Em _]. apply Hk in Em.
-      assert (In v (kids w0 p)) as Hv0 by tauto.
-      intro x. rewrite (set_discard_kids w known p v Hfw Hcw (good_kind_p known w0 w p fk Hg Hfk) p).
-      rewrite Z.eqb_refl. rewrite remove_id_In. rewrite Hk. destruct (Z.eq_dec x v) as [E|E].
-      * subst x. pose proof (in_snoc_eq v pre). tauto.
-      * rewrite (in_snoc_ne x v pre E). tauto.
-    + destruct (good_add known w0 w p fk v Hg Hhp Hfk Hmv) as [Hg' Hfl]. split; [|exact Hfl]. split; [exact Hg'|].
-      assert (~ In v (kids w p)) as Hnv.
-      { intro H. apply mem_false in Em. apply Em. apply field_In. split; [exact H|exact HinF]. }
-      assert (~ In v (kids w0 p)) as Hv0. { intro H. apply Hnv. apply Hk. left. split; [exact H|exact Hvp]. }
-      destruct (Hpw p) as [Hhp' Hkp']. pose proof Hfk as Hfk'. rewrite <- Hkp' in Hfk'.
-      pose proof Hmv as Hmv'. rewrite <- (member_ok_pres w0 w fk v Hpw) in Hmv'.
-      destruct (member_ok_child w p fk v Hfk' Hmv') as [Hhv [Hpk Hpi]].
-      intro x. rewrite (set_add_members w known p v Hfw Hcw (eq_trans Hhp' Hhp) Hhv Hpk Hpi x).
-      rewrite Hk. destruct (Z.eq_dec x v) as [E|E].
-      * subst x. pose proof (in_snoc_eq v pre). tauto.
-      * rewrite (in_snoc_ne x v pre E). tauto.
-  - split; [apply good_refl; assumption|]. intro x. cbn [In]. tauto.
-  - split; [exact A|]. split; [exact C|exact B].
+  intros Hf Hc Hhp Hfk Hl r1 r2 E1 E2.
+  destruct (fold_discard_kids known w0 p fk (filter (fun c => mem c (field w0 p fk)) l) Hf Hc Hfk) as [G1 [F1 K1]].
+  rewrite <- E1 in G1, F1, K1.
+  destruct G1 as [Hf1 [Hc1 Hp1]].
+  destruct (Hp1 p) as [Hhp1 Hkp1].
+  assert (Hl2 : forall c, In c (filter (fun c => negb (mem c (field w0 p fk))) l) -> member_ok (fst r1) fk c = true).
+  { intros c Hin. rewrite (member_ok_pres w0 (fst r1) fk c Hp1). apply Hl. apply filter_In in Hin. apply Hin. }
+  destruct (fold_add_kids known (fst r1) p fk (filter (fun c => negb (mem c (field w0 p fk))) l) Hf1 Hc1
+              (eq_trans Hhp1 Hhp)) as [G2 [F2 K2]].
+  { rewrite Hkp1. exact Hfk. }
+  { exact Hl2. }
+  rewrite <- E2 in G2, F2, K2.
+  destruct G2 as [Hf2 [Hc2 Hp2]].
+  split; [split; [exact Hf2|split; [exact Hc2|exact (pres_trans _ _ _ Hp1 Hp2)]]|].
+  split; [exact F1|]. split; [exact F2|].
+  intro x. rewrite K2, K1, !filter_In.
+  assert (Hmem : In x l -> (mem x (field w0 p fk) = true <-> In x (kids w0 p))).
+  { intro Hx. rewrite mem_In, field_In. pose proof (member_ok_inF w0 fk x (Hl x Hx)). tauto. }
+  destruct (in_dec Z.eq_dec x l) as [Hx|Hx].
+  - specialize (Hmem Hx). destruct (mem x (field w0 p fk)); cbn [negb].
+    + assert (In x (kids w0 p)) by (apply Hmem; reflexivity). split; [|tauto].
+      intros [[_ H1]|[_ H1]]; [exfalso; apply H1; tauto|discriminate H1].
+    + assert (~ In x (kids w0 p)) by (intro H; apply Hmem in H; discriminate H). tauto.
+  - tauto.
 Qed.
 
 (* ---------- per-method effect theorems for OSet (Python set semantics on the field) ---------- *)
@@ -1498,8 +1487,15 @@ Proof.
   intros Hf Hc Hg. destruct (oset_guard _ _ _ _ _ _ Hg) as [Hhp [Hfk [Hargs _]]].
   assert (Hall : forall c, In c (dedup a) -> member_ok w fk c = true).
   { intros c Hc'. apply (forallb_concat _ _ Hargs). cbn [concat]. rewrite app_nil_r. apply dedup_In. exact Hc'. }
-  destruct (fold_xor_kids known w p fk (dedup a) Hf Hc Hhp Hfk (dedup_NoDup a) Hall) as [Hgood [Hfl Hk]].
-  eexists. split; [cbn [step do_set]; apply flagged_true; exact Hfl|]. split; [exact Hgood|].
+  destruct (ixor_kids known w p fk (dedup a) Hf Hc Hhp Hfk Hall _ _ eq_refl eq_refl) as [Hgood [Hfl1 [Hfl2 Hk]]].
+  refine (ex_intro _ _ (conj _ (conj Hgood _))).
+  { cbn [step do_set]. cbv zeta. clear Hgood Hk.
+    destruct (fold_ok (fun w c => set_discard w p c) (filter (fun c => mem c (field w p fk)) (dedup a)) w)
+      as [w1 ok1].
+    cbn [fst snd] in *.
+    destruct (fold_ok (fun w c => set_add w p c) (filter (fun c => negb (mem c (field w p fk))) (dedup a)) w1)
+      as [w2 ok2].
+    cbn [fst snd] in *. subst ok1 ok2. reflexivity. }
   intro x. destruct Hgood as [_ [_ Hpres]]. rewrite (field_In_pres w _ p fk x Hpres). rewrite Hk. rewrite field_In.
   rewrite dedup_In. split; [tauto|]. intros [H|[H1 H2]]; [tauto|].
   pose proof (member_ok_inF w fk x (Hall x (proj2 (dedup_In x a) H2))) as HinF. tauto.
